@@ -17,6 +17,9 @@ CHECKS = {
  "C08": ("2/C08", TECH + ": all ordered pairs of an Integer boundary grid and a Decimal pool x 6 operators + unary functions, vs math/big",
          "all pairs of the grids are evaluated through Compile/Evaluate and compared with exact rational arithmetic",
          "values outside the grids are not covered; math/big is trusted"),
+ "C10": ("2/C10", TECH + ": all collections up to a length bound over an 8-item alphabet x criteria x all positions n; all ordered collection pairs for the set functions",
+         "every collection of the alphabet up to the bound is pushed through where/select/exists/all/take/skip/indexer/distinct and every ordered pair through exclude/intersect on the real code; results compared by pointer identity with a slice reference model and with the equations of the statement",
+         "reference equality partition of the alphabet is hand-written; collections longer than the bound and other item types only via the path-derived sub-space"),
  "C13": ("2/C13", TECH + ": items (value pool + string grammar) x 8 targets x {toT, convertsToT} with relational laws",
          "complete enumeration of the item pool and the string grammar against the laws of the statement and a hand-written conversion table",
          "conversion table and per-string validity parsers are hand-written in the harness"),
